@@ -598,3 +598,77 @@ Proof.
     destruct (e_rec k) as [t|e]; cbn in H; [|discriminate]. apply table_eqb_true in H. subst. reflexivity.
   - apply Z.ltb_lt in H. apply Z.leb_le in Dn. lia.
 Qed.
+
+(* ---- the encoded/decoded state machine; codes are injective and fit a byte ------------- *)
+
+(* encode refuses encoded data, recode refuses decoded data: after a successful encode a
+   second encode is refused, and after the recode that follows a second recode is refused *)
+Theorem codec_state_guard d given st' :
+  encode given (mkbp d None) = Ok st' ->
+  (forall g2, encode g2 st' = Err E_Value) /\
+  recode (mkbp d None) = Err E_Value /\
+  (forall st'', recode st' = Ok st'' -> blabels st'' = None /\ recode st'' = Err E_Value).
+Proof.
+  intros He. destruct (encode_spec d given) as [Lf [Sf [He' _]]]. rewrite He' in He.
+  destruct (codes_fit (map_table (code_of Lf) d)); [|discriminate].
+  inversion He; subst st'. clear He. split; [|split].
+  - intros g2. reflexivity.
+  - reflexivity.
+  - intros st'' Hr. unfold recode in Hr. cbn [blabels bdata] in Hr.
+    match type of Hr with bind ?m _ = _ => destruct m as [dd|e]; cbn [bind] in Hr; [|discriminate] end.
+    inversion Hr; subst st''. split; reflexivity.
+Qed.
+
+(* distinct labels present in the data get distinct codes, every code is in 0..255, and a
+   given (distinct) label list fixes the code of each of its labels: its position *)
+Theorem encode_codes_injective d given st' :
+  (match given with Some g => NoDup g | None => True end) ->
+  encode given (mkbp d None) = Ok st' ->
+  exists labels, blabels st' = Some labels /\
+    NoDup (map fst labels) /\ NoDup (map snd labels) /\
+    (forall p, In p (pops_of d) -> 0 <= code_of labels p <= 255) /\
+    (forall p q, In p (pops_of d) -> In q (pops_of d) ->
+                 code_of labels p = code_of labels q -> p = q).
+Proof.
+  intros Hg He. destruct (encode_spec d given) as [Lf [Sf [He' [Hall [Hi _]]]]]. rewrite He' in He.
+  destruct (codes_fit (map_table (code_of Lf) d)) eqn:Ef; [|discriminate].
+  inversion He; subst st'. clear He. cbn [blabels]. exists (seen_filter Sf Lf).
+  specialize (Hi Hg). destruct Hi as [Hk Hc Hb].
+  assert (Hz : forall p, In p (pops_of d) -> zassoc p (seen_filter Sf Lf) = zassoc p Lf).
+  { intros p Hp. unfold seen_filter. rewrite (zassoc_filter_key (fun k => existsb (Z.eqb k) Sf)).
+    destruct (Hall p Hp) as [Hs _].
+    replace (existsb (Z.eqb p) Sf) with true; [reflexivity|]. symmetry. apply existsb_exists.
+    exists p. split; [exact Hs|apply Z.eqb_refl]. }
+  split; [reflexivity|]. split; [apply NoDup_map_filter; exact Hk|].
+  split; [apply NoDup_map_filter; exact Hc|]. split.
+  - intros p Hp. unfold code_of. rewrite (Hz p Hp). destruct (Hall p Hp) as [_ Hn].
+    destruct (zassoc p Lf) as [c|] eqn:Ez; [|congruence]. split.
+    + apply zassoc_In in Ez. specialize (Hb _ Ez). cbn [snd] in Hb. lia.
+    + (* the code was stored into a np.uint8 cell: codes_fit *)
+      unfold codes_fit in Ef. rewrite forallb_forall in Ef.
+      unfold pops_of in Hp. apply in_flat_map in Hp. destruct Hp as [[name [b1 b2]] [Hin Hp]].
+      cbn [fst snd] in Hp.
+      assert (Hin' : In (name, (map_pop (code_of Lf) b1, map_pop (code_of Lf) b2)) (map_table (code_of Lf) d)).
+      { unfold map_table. apply in_map_iff. exists (name, (b1, b2)). split; [reflexivity|exact Hin]. }
+      specialize (Ef _ Hin'). cbn [fst snd] in Ef. apply andb_true_iff in Ef. destruct Ef as [F1 F2].
+      unfold fits8 in F1, F2. rewrite forallb_forall in F1, F2.
+      assert (K : forall s, In s b1 \/ In s b2 -> code_of Lf (pop s) <= 255).
+      { intros s [Hs|Hs]; [specialize (F1 (set_pop s (code_of Lf (pop s))))|specialize (F2 (set_pop s (code_of Lf (pop s))))];
+          cbn [pop set_pop] in *; apply Z.leb_le; [apply F1|apply F2]; unfold map_pop; apply in_map_iff; exists s; split; auto. }
+      apply in_app_or in Hp. destruct Hp as [Hp|Hp]; apply in_map_iff in Hp; destruct Hp as [s [Hs Hin2]];
+        [specialize (K s (or_introl Hin2))|specialize (K s (or_intror Hin2))];
+        rewrite Hs in K; unfold code_of in K; rewrite Ez in K; exact K.
+  - intros p q Hp Hq. unfold code_of. rewrite (Hz p Hp), (Hz q Hq).
+    destruct (Hall p Hp) as [_ Hnp]. destruct (Hall q Hq) as [_ Hnq].
+    destruct (zassoc p Lf) as [c|] eqn:Ep; [|congruence].
+    destruct (zassoc q Lf) as [c'|] eqn:Eq; [|congruence]. intros ->.
+    apply zassoc_In in Ep. apply zassoc_In in Eq.
+    pose proof (unique_by_snd Lf (p, c') (q, c') Hc Ep Eq eq_refl) as H. congruence.
+Qed.
+
+Theorem encode_codes_injective_example :
+  let d := [(0, ([mkseg 7 1 10122 3], [mkseg 8 1 10115 0; mkseg 7 1 10116 1; mkseg 9 1 10120 2]))] in
+  exists st', encode (Some [9; 8; 7]) (mkbp d None) = Ok st' /\
+              map (code_of (match blabels st' with Some l => l | None => [] end)) [7; 8; 9] = [2; 1; 0] /\
+              encode None st' = Err E_Value.
+Proof. eexists. split; [vm_compute; reflexivity|]. split; vm_compute; reflexivity. Qed.
